@@ -19,7 +19,7 @@ func (p *pg) genC09() (Config, Plan) {
 	c.Strict = false
 	kinds := []string{"append", "append", "append", "deltail", "delhead", "delall", "reopen", "quiesce", "quiesce", "yield"}
 	mix := p.swarmMix(kinds, "append", "quiesce")
-	n := 6 + p.r.Intn(40)
+	n := p.ops(6 + p.r.Intn(40))
 	var plan Plan
 	for i := 0; i < n; i++ {
 		plan.Ops = append(plan.Ops, p.draw(mix))
@@ -35,7 +35,7 @@ func (p *pg) genC20() (Config, Plan) {
 	c.SegSize = []int{64, 64, 128, 200, 256, 512, 4096}[p.r.Intn(7)]
 	kinds := []string{"append", "append", "badappend", "deltail", "delhead", "delhead", "delall", "delmid", "delnoop", "reopen", "quiesce", "yield", "get", "set", "getstable"}
 	mix := p.swarmMix(kinds, "append", "delhead", "quiesce")
-	n := 6 + p.r.Intn(40)
+	n := p.ops(6 + p.r.Intn(40))
 	var plan Plan
 	for i := 0; i < n; i++ {
 		op := p.draw(mix)
@@ -121,7 +121,7 @@ func (p *pg) genC08() (Config, Plan) {
 	c.Meta = "bolt"
 	kinds := []string{"set", "set", "set", "getstable", "getstable", "append", "append", "delhead", "deltail", "reopen", "yield", "quiesce"}
 	mix := p.swarmMix(kinds, "set", "getstable", "append")
-	n := 6 + p.r.Intn(30)
+	n := p.ops(6 + p.r.Intn(30))
 	var plan Plan
 	for i := 0; i < n; i++ {
 		op := p.draw(mix)
